@@ -106,7 +106,7 @@ def elf_scenarios(rng):
                 b.api(op="mem_write_bytes", addr=base + 3, data=[9, 9])
                 b.api(op="mem_read_bytes", addr=base + 3, len=2)
                 b.fetch(base + 1, mustrun=(seg == "text"))
-                scs.append(b.scenario(maxbytes=5000, elf=image))
+                scs.append(b.scenario(maxbytes=5000, elf=image, expect_prot=((0x400000, 5), (0x500000, 1), (0x600000, 3))))
     return scs
 
 
